@@ -256,10 +256,6 @@ struct Exec {
           Vec d = apply_boundary(B, z);
           if (!model::is_zero(d, P)) {
             r.count("probe.cycle_not_a_cycle");
-            // known finding C08-KF1 (narrow): the returned chain is exactly row `birth` of the stored (transposed) factor U
-            bool is_row_of_U = FAM == RU;
-            if constexpr (FAM == RU && IDX != 2) { for (int i = 0; i < n && is_row_of_U; ++i) { Vec ui = dense_by_pos(mp->get_column(col_of_pos(i), false), true); if ((ui[mb.birth] != 0) != (z[i] != 0)) is_row_of_U = false; } }
-            if (is_row_of_U && r.kf("C08-KF1")) { obs.tainted = true; continue; }
             fail("cycle", "representative of bar " + bars_str({mb}) + "is not a cycle: " + vec_str(z) + " has boundary " + vec_str(d));
           }
           zs.push_back({mb, z});
